@@ -75,6 +75,22 @@ func c18CallSites(c *c18Ctx, fd *ast.FuncDecl) (sites []*ast.CallExpr, in []*ast
 			return true
 		})
 	}
+	// calls in the initialisers of package-level variables (`var table = load(data)`): no enclosing function
+	for _, f := range c.pk.Syntax {
+		for _, d := range f.Decls {
+			gd, ok := d.(*ast.GenDecl)
+			if !ok || gd.Tok != token.VAR {
+				continue
+			}
+			ast.Inspect(gd, func(n ast.Node) bool {
+				if call, ok := n.(*ast.CallExpr); ok && callee(c.info, call) == fn {
+					sites = append(sites, call)
+					in = append(in, nil)
+				}
+				return true
+			})
+		}
+	}
 	return sites, in
 }
 
@@ -121,7 +137,13 @@ func c18FindLiteral(c *c18Ctx) (*c18Lit, string) {
 			}
 			for _, p := range c18BindPair(c, fd, call.Args[0], call.Args[1], 3) {
 				ue, ok := ast.Unparen(p.b).(*ast.UnaryExpr)
-				if !ok || ue.Op != token.AND || objOf(c.info, ue.X) != c.table {
+				if !ok || ue.Op != token.AND {
+					continue
+				}
+				// the target is the table itself, or a local slice of the table's type (decoded, sorted and then
+				// assigned to / returned into the table; L2 follows the value)
+				tv, _ := objOf(c.info, ue.X).(*types.Var)
+				if tv == nil || tv.IsField() || (tv != c.table && (tv.Parent() == c.pk.Types.Scope() || !types.Identical(tv.Type().Underlying(), c.table.Type().Underlying()))) {
 					continue
 				}
 				found = append(found, &c18Lit{call: call, fd: fd, addr: ue, via: p.via})
@@ -131,7 +153,7 @@ func c18FindLiteral(c *c18Ctx) (*c18Lit, string) {
 		})
 	}
 	if len(found) != 1 {
-		return nil, fmt.Sprintf("expected exactly one json.Unmarshal(..., &%s) in package osm (directly or through a helper's parameter), found %d", c.table.Name(), len(found))
+		return nil, fmt.Sprintf("expected exactly one json.Unmarshal whose target is &%s or a local slice of its type (directly or through a helper's parameter) in package osm, found %d", c.table.Name(), len(found))
 	}
 	l := found[0]
 	e := ast.Unparen(firsts[0])
